@@ -366,12 +366,68 @@ func runCase(cs caseSpec) *result {
 	} else {
 		initial = h.build(cs)
 	}
+	// Partial registration (len(Order) < N): the design consists of the registered roots and
+	// of everything they depend on, directly or not; a root that is neither does not exist
+	// (its expressions are never handed to the engine and nothing is expected of them).
+	present := initial
+	if !strict && len(cs.Order) < cs.N {
+		in := make([]bool, cs.N)
+		var mark func(i int)
+		mark = func(i int) {
+			if in[i] {
+				return
+			}
+			in[i] = true
+			for j := 0; j < cs.N; j++ {
+				if cs.Edges>>(uint(i*cs.N+j))&1 == 1 {
+					mark(j)
+				}
+			}
+		}
+		for _, i := range cs.Order {
+			mark(i)
+		}
+		present = nil
+		induced := cs.Edges
+		for i, r := range initial {
+			if in[i] {
+				present = append(present, r)
+				continue
+			}
+			for j := 0; j < cs.N; j++ {
+				induced &^= 1<<uint(i*cs.N+j) | 1<<uint(j*cs.N+i)
+			}
+		}
+		kept := h.exprs[:0]
+		for _, e := range h.exprs {
+			for _, r := range present {
+				if e.root == r {
+					kept = append(kept, e)
+				}
+			}
+		}
+		h.exprs = kept
+		cyclic = refCyclic(cs.N, induced)
+	}
+	registered := map[*troot]bool{}
 	for _, i := range cs.Order {
 		if err := eval.Register(initial[i].self); err != nil {
 			res.infra = append(res.infra, "eval.Register failed: "+err.Error())
 			return res
 		}
 		h.roots = append(h.roots, initial[i])
+		registered[initial[i]] = true
+	}
+	for _, r := range present {
+		if !registered[r] {
+			r.class = "dependency-only-root"
+			for _, e := range h.exprs {
+				if e.root == r {
+					e.class = "dependency-only-root-expr"
+				}
+			}
+			h.roots = append(h.roots, r)
+		}
 	}
 
 	// ---- 1. Context.Roots(): the order in which roots will be processed -------------
@@ -383,7 +439,7 @@ func runCase(cs caseSpec) *result {
 	case !cyclic && err != nil:
 		res.add("acyclic-graph-rejected api=Roots", "acyclic dependency graph but Context.Roots() returned error %q", err)
 	case !cyclic:
-		checkOrder(res, initial, got)
+		checkOrder(res, present, got)
 	}
 
 	// ---- 2. RunDSL --------------------------------------------------------------------
@@ -685,7 +741,7 @@ func checkOrder(res *result, initial []*troot, got []eval.Root) {
 	}
 	for _, r := range initial {
 		if _, ok := pos[r]; !ok {
-			res.add("order-membership api=Roots problem=missing", "Roots() does not list registered root %s: %s", r.name, rootNames(got))
+			res.add("order-membership api=Roots problem=missing", "Roots() does not list root %s (registered, or a dependency of a registered root): %s", r.name, rootNames(got))
 		}
 	}
 	for _, r := range initial {
